@@ -59,6 +59,15 @@ Example C12_example :
   = [(1, Some 7); (2, None)]%Z.
 Proof. vm_compute. reflexivity. Qed.
 
+(* the bounding-box test: frames whose bounding boxes have the same width and height are never declared incompatible, whatever moved
+   inside and however the frames are numbered; in particular a frame is compatible with itself *)
+Theorem C12_same_extent_not_too_different : forall p0 p1 : list vtx,
+  (lmax (xs_of p1) - lmin (xs_of p1) == lmax (xs_of p0) - lmin (xs_of p0))%Q ->
+  (lmax (ys_of p1) - lmin (ys_of p1) == lmax (ys_of p0) - lmin (ys_of p0))%Q -> too_different p0 p1 = false.
+Proof. exact same_extent_not_too_different. Qed.
+Theorem C12_frame_compatible_with_itself : forall p : list vtx, too_different p p = false.
+Proof. exact frame_not_too_different_from_itself. Qed.
+
 Print Assumptions C12_mapping_injective.
 Print Assumptions C12_guess_honoured.
 Print Assumptions C12_targets_are_endpoints.
@@ -67,3 +76,5 @@ Print Assumptions C12_find_best_free.
 Print Assumptions C12_forward_backward.
 Print Assumptions C12_find_best_nearest.
 Print Assumptions C12_small_motions_are_followed.
+Print Assumptions C12_same_extent_not_too_different.
+Print Assumptions C12_frame_compatible_with_itself.
